@@ -323,11 +323,11 @@ Proof.
       * destruct (isnil d); [reflexivity|]. rewrite (IHi _ _ H1 Hd), (IHi _ _ H0 Hd).
         destruct (py_inst g n p1 d) as [a|] eqn:Ea; [|reflexivity]. simpl.
         destruct (py_inst g n p2 d) as [b|] eqn:Eb; [|reflexivity]. simpl.
-        apply IHe; auto; eapply py_inst_cf; eauto.
+        apply IHe; [exact (py_inst_cf g n p1 d a H1 Hd Ea)|exact H|exact (py_inst_cf g n p2 d b H0 Hd Eb)].
       * destruct (isnil d); [reflexivity|]. rewrite (IHi _ _ H1 Hd), (IHi _ _ H0 Hd).
         destruct (py_inst g n p1 d) as [a|] eqn:Ea; [|reflexivity]. simpl.
         destruct (py_inst g n p2 d) as [b|] eqn:Eb; [|reflexivity]. simpl.
-        apply IHs; auto; eapply py_inst_cf; eauto.
+        apply IHs; [exact (py_inst_cf g n p1 d a H1 Hd Ea)|exact H|exact (py_inst_cf g n p2 d b H0 Hd Eb)].
       * fold (cfd d0) in H0.
         assert (Em : map_opt (fun kv : N * ppat => bind (py_inst f n (snd kv) d) (fun v => Some (fst kv, v))) d0
                      = map_opt (fun kv : N * ppat => bind (py_inst g n (snd kv) d) (fun v => Some (fst kv, v))) d0).
@@ -345,7 +345,7 @@ Proof.
       * rewrite (disj_mem _ _ _ H Hx). rewrite !andb_false_r. reflexivity.
       * fold (cfd d) in H0. rewrite (IHi _ _ H H0).
         destruct (py_inst g n p d) as [r0|] eqn:Er; [|reflexivity]. simpl.
-        apply IHe; auto. eapply py_inst_cf; eauto.
+        apply IHe; [exact (py_inst_cf g n p d r0 H H0 Er)|exact Hx|exact Hpl].
     + intros p x pl Hp Hx Hpl. destruct p; simpl in Hp |- *; andb_split; try reflexivity.
       * rewrite (IHs _ _ _ H Hx Hpl), (IHs _ _ _ H0 Hx Hpl). reflexivity.
       * rewrite (IHs _ _ _ H Hx Hpl), (IHs _ _ _ H0 Hx Hpl). reflexivity.
@@ -354,7 +354,7 @@ Proof.
       * rewrite (disj_mem _ _ _ H0 Hx). rewrite !andb_false_r. reflexivity.
       * fold (cfd d) in H0. rewrite (IHi _ _ H H0).
         destruct (py_inst g n p d) as [r0|] eqn:Er; [|reflexivity]. simpl.
-        apply IHs; auto. eapply py_inst_cf; eauto.
+        apply IHs; [exact (py_inst_cf g n p d r0 H H0 Er)|exact Hx|exact Hpl].
 Qed.
 
 Theorem py_inst_bridge n p d : corner_free p = true -> cfd d = true -> py_inst f n p d = py_inst g n p d.
